@@ -3,6 +3,7 @@
 package api
 
 import (
+	"crypto/hmac"
 	"crypto/rand"
 	"crypto/rsa"
 	"crypto/sha256"
@@ -41,6 +42,7 @@ type verifC04Group struct {
 	Strict bool          `json:"strict"`
 	Tol    int64         `json:"tol"` // seconds
 	Keys   []verifC04Key `json:"keys"`
+	Meths  []string      `json:"methods"` // methods the group's route is registered with (default: the four guarded ones)
 }
 
 type verifC04Req struct {
@@ -53,6 +55,7 @@ type verifC04Req struct {
 	Query   string `json:"query"`
 	Body    string `json:"body"`
 	Tamper  string `json:"tamper"` // "" | body | query
+	NoSig   bool   `json:"nosig"`  // unsigned: no X-Content-Security header at all
 }
 
 type verifC04Case struct {
@@ -98,6 +101,13 @@ func verifC04GenKeys(dir string) ([]verifC04Pair, error) {
 	return out, nil
 }
 
+// standard-library reference of the documented signature
+func verifC04Hmac(key []byte, content string) string {
+	h := hmac.New(sha256.New, key)
+	h.Write([]byte(content))
+	return base64.StdEncoding.EncodeToString(h.Sum(nil))
+}
+
 func verifC04Sha(body string) string { return fmt.Sprintf("%x", sha256.Sum256([]byte(body))) }
 
 type verifC04Opt struct {
@@ -138,9 +148,14 @@ func TestVerifDriverC04(t *testing.T) {
 				w.WriteHeader(http.StatusOK)
 			}
 			path := "/grp" + strconv.Itoa(gi) + "/res"
-			fr := featuredRoutes{routes: []Route{
-				{Method: http.MethodPost, Path: path, Handler: h}, {Method: http.MethodGet, Path: path, Handler: h},
-				{Method: http.MethodPut, Path: path, Handler: h}, {Method: http.MethodDelete, Path: path, Handler: h}}}
+			meths := g.Meths
+			if len(meths) == 0 {
+				meths = []string{http.MethodPost, http.MethodGet, http.MethodPut, http.MethodDelete}
+			}
+			fr := featuredRoutes{}
+			for _, m := range meths {
+				fr.routes = append(fr.routes, Route{Method: m, Path: path, Handler: h})
+			}
 			WithSignature(SignatureConfig{Strict: g.Strict, Expire: time.Duration(g.Tol) * time.Second, PrivateKeys: pks})(&fr)
 			ng.addRoutes(fr)
 		}
@@ -168,7 +183,7 @@ func TestVerifDriverC04(t *testing.T) {
 			hk, _ := base64.StdEncoding.DecodeString(rq.HmacKey)
 			signContent := strings.Join([]string{ts, rq.Method, path, signQuery, verifC04Sha(signBody)}, "\n")
 			sentContent := strings.Join([]string{ts, rq.Method, path, rq.Query, verifC04Sha(rq.Body)}, "\n")
-			sig := codec.HmacBase64(hk, signContent)
+			sig := verifC04Hmac(hk, signContent)
 			header := "fingerprint=" + rq.Fp + "; secret=" + secret + "; signature=" + sig
 			target := "http://localhost" + path
 			if rq.Query != "" {
@@ -180,7 +195,11 @@ func TestVerifDriverC04(t *testing.T) {
 				body = strings.NewReader(rq.Body)
 				req = httptest.NewRequest(rq.Method, target, body)
 			}
-			req.Header.Set(httpx.ContentSecurity, header)
+			if rq.NoSig {
+				header = ""
+			} else {
+				req.Header.Set(httpx.ContentSecurity, header)
+			}
 			ranGroup = -1
 			rec := httptest.NewRecorder()
 			panicked, pv := verifdrv.Catch(func() { rt.ServeHTTP(rec, req) })
@@ -196,8 +215,8 @@ func TestVerifDriverC04(t *testing.T) {
 				"now0": now0, "now1": now1, "ts": ts, "header": header, "secret": secret, "sig": sig, "plain": plain,
 				"method": req.Method, "path": req.URL.Path, "query": req.URL.RawQuery, "clen": req.ContentLength,
 				"rsa": rsaTab, "keybytes": base64.StdEncoding.EncodeToString(hk),
-				"sentcontent": sentContent, "sentmac": codec.HmacBase64(hk, sentContent),
-				"signcontent": signContent, "signmac": codec.HmacBase64(hk, signContent),
+				"sentcontent": sentContent, "sentmac": verifC04Hmac(hk, sentContent),
+				"signcontent": signContent, "signmac": verifC04Hmac(hk, signContent),
 				"sha": verifC04Sha(rq.Body), "status": rec.Code, "ran": ranGroup >= 0, "rangroup": ranGroup,
 				"sighdr": rec.Header().Get("Signature"), "panic": panicked, "panicval": pv,
 			})
